@@ -62,6 +62,8 @@ type Prog struct {
 	NEdges    int
 
 	// caches
+	ref           *refined
+	refining      bool
 	storesByField map[fieldKey][]*ssa.Store
 	callersOf     map[*ssa.Function][]callSite
 }
@@ -249,21 +251,17 @@ func (p *Prog) Callees(in ssa.CallInstruction) []*ssa.Function {
 	if sc := in.Common().StaticCallee(); sc != nil {
 		return []*ssa.Function{sc}
 	}
-	fn := in.Parent()
-	n := p.CG.Nodes[fn]
-	if n == nil {
-		return nil
-	}
-	var out []*ssa.Function
-	seen := map[*ssa.Function]bool{}
-	for _, e := range n.Out {
-		if e.Site == in && !seen[e.Callee.Func] {
-			seen[e.Callee.Func] = true
-			out = append(out, e.Callee.Func)
+	if isDynamicFuncCall(in.Common()) && !p.refining {
+		if p.ref == nil || !p.ref.done {
+			p.refining = true
+			p.refine()
+			p.refining = false
+		}
+		if fns, ok := p.ref.callees[in]; ok {
+			return fns
 		}
 	}
-	sort.Slice(out, func(i, j int) bool { return FuncName(out[i]) < FuncName(out[j]) })
-	return out
+	return p.vtaCallees(in)
 }
 
 // RepoCallees is Callees filtered to repo functions.
@@ -289,6 +287,19 @@ func (p *Prog) Callers(fn *ssa.Function) []callSite {
 			for _, e := range n.Out {
 				if e.Site == nil {
 					continue
+				}
+				if isDynamicFuncCall(e.Site.Common()) && p.ref != nil && p.ref.done {
+					if fns, ok := p.ref.callees[e.Site]; ok {
+						keep := false
+						for _, g := range fns {
+							if g == e.Callee.Func {
+								keep = true
+							}
+						}
+						if !keep {
+							continue
+						}
+					}
 				}
 				p.callersOf[e.Callee.Func] = append(p.callersOf[e.Callee.Func], callSite{f, e.Site})
 			}
